@@ -103,6 +103,11 @@ C05_rejoinTerms(pre, op, res, post) ==
   (IsRotateOK(op, res) /\ pre.rule = "default" /\ ~IsHU(pre) /\ ActiveCount(post) >= 3 /\ post.dealer # post.bb) =>
     \A s \in SeatsOf(pre) : (Occ(pre, s) /\ ~Act(pre, s)) =>
         post.seat[s].btw = StrictlyBetween(post.n, post.dealer, post.bb, s)
+(* a waiting newcomer "waits until the rotation has moved past them": nothing but a rotation (or leaving) ends the wait --
+   not sitting in, not buying chips                                                                                    *)
+C05_waitsUntilRotation(pre, op, res, post) ==
+  op \in {"join", "chips", "assign", "random"} =>
+    \A s \in SeatsOf(pre) : (Occ(pre, s) /\ pre.seat[s].btw /\ post.seat[s].id = pre.seat[s].id) => post.seat[s].btw
 (* continuity: whoever was dealt in and is still seated-in with chips stays
    dealt in across a successful rotation                                   *)
 C05_continuity(pre, op, res, post) ==
